@@ -83,6 +83,7 @@ func runC09(p *Prog, r *Report) {
 	c.envelope()
 	c.vocabulary()
 	exactNumberSites(p, r, "R9.6-untyped-decode-sites")
+	jsonEmittersQuoteAsJSON(p, r, "R9.7-json-quoting", 15)
 }
 
 func (c *c9ctx) anchors() bool {
